@@ -93,7 +93,24 @@ func runCTwin(c *ctx) error {
 			t = fixed[i] // keys that nearly fill a block: both writers must refuse them
 		}
 		if !nulFree(&t) {
-			continue
+			// names are NUL-terminated strings on the C side: leave those records out
+			var rs []reftable.RefRecord
+			for _, r := range t.refs {
+				if !strings.Contains(r.RefName, "\x00") && !strings.Contains(r.Target, "\x00") {
+					rs = append(rs, r)
+				}
+			}
+			var ls []reftable.LogRecord
+			for _, l := range t.logs {
+				if !strings.Contains(l.RefName, "\x00") {
+					ls = append(ls, l)
+				}
+			}
+			t.refs, t.logs = rs, ls
+		}
+		// strings are NUL-terminated on the C side: a message with a NUL byte cannot be handed to the C API
+		for k := range t.logs {
+			t.logs[k].Message = strings.ReplaceAll(t.logs[k].Message, "\x00", "\x01")
 		}
 		if t.cfg.BlockSize != 0 && t.cfg.BlockSize < 100 {
 			continue // both writers refuse; covered by C01
@@ -380,7 +397,7 @@ func cStackWrites(c *ctx, d *cdrv) error {
 					l.Name = "n"
 					l.Email = "e"
 					l.Time = uint64(1000 + c.rng.Intn(10))
-					l.Message = []string{"m", "msg\n", " sp ", "x\n\n"}[c.rng.Intn(4)]
+					l.Message = []string{"m", "msg\n", " sp ", "x\n\n", "cr\r\n", "cr\r", "t\t\n"}[c.rng.Intn(7)]
 					if cfg.Exact && c.rng.Intn(3) == 0 {
 						l.Message = "two\nlines"
 					}
